@@ -296,8 +296,18 @@ HeaderProtection_apply(HeaderProtectionObject *self, PyObject *args)
     if (!PyArg_ParseTuple(args, "y#y#", &header, &header_len, &payload, &payload_len))
         return NULL;
 
+    if (header_len < 1 || header_len > PACKET_LENGTH_MAX || payload_len > PACKET_LENGTH_MAX - header_len) {
+        PyErr_SetString(CryptoError, "Invalid packet length");
+        return NULL;
+    }
+
     int pn_length = (header[0] & 0x03) + 1;
     int pn_offset = header_len - pn_length;
+
+    if (pn_offset < 1 || payload_len < PACKET_NUMBER_LENGTH_MAX - pn_length + SAMPLE_LENGTH) {
+        PyErr_SetString(CryptoError, "Invalid packet length");
+        return NULL;
+    }
 
     res = HeaderProtection_mask(self, payload + PACKET_NUMBER_LENGTH_MAX - pn_length);
     CHECK_RESULT(res != 0);
